@@ -783,6 +783,36 @@ theorem conn_replay_strict (log : List Nat) (f : Nat) : ∀ (n start : Nat), sta
     have := ih (start + 1) (by omega)
     rw [this]; congr 2; omega
 
+/-! ### the mutex of the in-memory tip is released before the batch is announced -/
+
+theorem cfLockRun_emits (log : List Nat) : ∀ (n start : Nat) (held : Bool) (x : Nat × Bool),
+    x ∈ cfLockRun held (cfLockEmits log start n) → x.2 = !held := by
+  intro n
+  induction n with
+  | zero => intro start held x hx; simp [cfLockEmits, cfLockRun] at hx
+  | succ k ih =>
+    intro start held x hx
+    simp only [cfLockEmits, cfLockRun, List.mem_cons] at hx
+    rcases hx with rfl | hx
+    · rfl
+    · exact ih (start + 1) held x hx
+
+/-- **A backlog request is enabled at every emission point of every batch**: with the order found
+in the source (acquire, raise the tip, release, then announce) the writer never holds
+`newFilterHeadersMtx` while it waits for an event to be taken, so the subscription manager can
+serve a new subscription (`NotificationsSinceHeight` takes the read lock) between any two events -
+no deadlock between the writer's rendezvous and the subscriber's lock. -/
+theorem C19_backlog_enabled_during_batch (log : List Nat) (start n : Nat) (held0 : Bool) (x : Nat × Bool)
+    (hx : x ∈ cfLockRun held0 (cfLockSteps true log start n)) : x.2 = true := by
+  simp only [cfLockSteps, ↓reduceIte, List.cons_append, List.nil_append, cfLockRun] at hx
+  have := cfLockRun_emits log n start false x hx
+  simpa using this
+
+/-- with the release moved behind the loop every emission happens with the mutex held: a backlog
+request arriving then blocks, the writer waits for the blocked manager to take the next event -/
+theorem C19_backlog_blocked_counterexample :
+    cfLockRun false (cfLockSteps false [0, 1, 2, 3] 2 2) = [(2, false), (3, false)] := by decide
+
 /-! ### the notification channel is a rendezvous -/
 
 open NtfnChan in
@@ -894,7 +924,7 @@ lowers the in-memory tip with the store; `blockNtfnChan` is made without a capac
 theorem C19_source_facts :
     Gen.BlockMgr.cfWriteBeforeNotify = true ∧ Gen.BlockMgr.cfTipBeforeNotify = true ∧
     Gen.BlockMgr.rollbackLowersFilterTip = true ∧ Gen.BlockMgr.blockNtfnChanUnbuffered = true ∧
-    Gen.BlockMgr.rollbackRemovesBeforeNotify = true := by decide
+    Gen.BlockMgr.rollbackRemovesBeforeNotify = true ∧ Gen.BlockMgr.cfUnlockBeforeNotify = true := by decide
 
 /-! Non-vacuity -/
 example : (cfWrite { log := [0, 1, 2, 3] } 2 2 true).2.ntf = [.conn 1 1 2, .conn 2 2 2] := by decide
